@@ -340,7 +340,7 @@ def prune_non_float_tensors(graph: Graph) -> Graph:
 
     graph = deepcopy(graph)
     for n in graph.nodes:
-        if n.name == "output":
+        if n.op == "output":
             continue
 
         if not n.meta.get("outputs_float_tensor", False):
@@ -390,7 +390,7 @@ def prune_same_scale_tensors(graph: Graph, rtol: float = 2**-16) -> Graph:
     """
     graph = deepcopy(graph)
     for n in graph.nodes:
-        if n.name == "output" or not n.meta.get("outputs_float_tensor", False):
+        if n.op == "output" or not n.meta.get("outputs_float_tensor", False):
             continue
 
         float_tensor_args = _filter_float_tensors(n.all_input_nodes)
